@@ -59,4 +59,57 @@ mod verif_witness_c09_sweep {
         }
         assert_eq!(bad, 0);
     }
+
+    /// the bestmove of an interrupted search is the one of the last completed iteration: the closing info reports depth d, a
+    /// fresh search of the same position to depth d must answer the same move (the search is deterministic)
+    #[test]
+    fn verif_witness_c09_interruption_bestmove_origin() {
+        let mut bad = 0;
+        for fen in ["rnb1kbnr/pppp1ppp/8/4p3/4P3/8/PPPP1PPP/RNBQKBNR b KQkq - 0 2",      // the side to move is a queen down
+                    "r1b1kbnr/pppp1ppp/2n5/4p3/4P3/5N2/PPPP1PPP/RNBQKB1R w KQkq - 0 3"] { // ... a queen up
+            let parsed = Fen::from_str(fen).unwrap();
+            for polls in [1usize, 2, 3, 5] {
+                // the flags are polled every 100,000 nodes and every poll emits an info line without a depth; a helper thread
+                // sends `stop` as soon as it has seen `polls` of them, so the stop is picked up at the next poll
+                let (uci_tx, uci_rx) = channel();
+                let (search_tx, search_rx) = channel();
+                let mut search = Search::new(Arc::new(CommandUciTx::new(uci_tx)), search_rx, SimpleHeuristic, MvvLvaMoveOrder, EngineOptions::default());
+                search.set_position_from(parsed.clone(), Vec::new());
+                search.params.go = Go { infinite: true, ..Go::default() };
+                search.reset_for_go();
+                let helper = std::thread::spawn(move || {
+                    let mut seen = 0usize;
+                    let mut depth = None;
+                    while let Ok(c) = uci_rx.recv() {
+                        if let UciTxCommand::Info { info } = c {
+                            match info.depth {
+                                Some(d) => depth = Some(d),
+                                None => { seen += 1; if seen == polls { let _ = search_tx.send(SearchMessage::UciStop); } }
+                            }
+                        }
+                    }
+                    depth
+                });
+                search.state.is_running = true;
+                let (best, _ponder) = search.best_move();
+                search.state.is_running = false;
+                let n = polls;
+                drop(search);      // closes the info channel, the helper returns the last depth reported
+                let depth = helper.join().unwrap();
+                let d = match depth { Some(d) if d >= 1 => d, _ => continue };
+                let (uci_tx2, _uci_rx2) = channel();
+                let (_search_tx2, search_rx2) = channel();
+                let mut fresh = Search::new(Arc::new(CommandUciTx::new(uci_tx2)), search_rx2, SimpleHeuristic, MvvLvaMoveOrder, EngineOptions::default());
+                fresh.set_position_from(parsed.clone(), Vec::new());
+                fresh.params.go = Go { depth: Some(d as u64), ..Go::default() };
+                fresh.reset_for_go();
+                let (expect, _p) = fresh.best_move();
+                if best.as_ref().map(|m| m.to_string()) != expect.as_ref().map(|m| m.to_string()) {
+                    if bad < 5 { println!("FAILING-INPUT: fen={:?}: stop sent after {} polls of `go infinite`; closing info depth {}, bestmove {:?}; a fresh search to depth {} answers {:?}", fen, n, d, best.map(|m| m.to_string()), d, expect.map(|m| m.to_string())); }
+                    bad += 1;
+                }
+            }
+        }
+        assert_eq!(bad, 0);
+    }
 }
